@@ -42,7 +42,9 @@ impl Display for GeneralError {
 impl std::error::Error for GeneralError {}
 
 type BoxError = Box<dyn std::error::Error + Send + Sync + 'static>;
-type CacheMap<T> = std::sync::Mutex<BTreeMap<std::path::PathBuf, T>>;
+// Keyed by the path exactly as written: `PathBuf` compares by components, which identifies
+// paths the file system tells apart (`q.graphql/` cannot be opened, `q.graphql` can).
+type CacheMap<T> = std::sync::Mutex<BTreeMap<std::ffi::OsString, T>>;
 type QueryDocument = graphql_parser::query::Document<'static, String>;
 
 lazy_static! {
@@ -55,7 +57,7 @@ fn get_set_cached<T: Clone>(
     key: &std::path::Path,
     value_func: impl FnOnce() -> T,
 ) -> T {
-    if let Some(cached) = cache.lock().expect("cache is poisoned").get(key) {
+    if let Some(cached) = cache.lock().expect("cache is poisoned").get(key.as_os_str()) {
         return cached.clone();
     }
 
@@ -63,7 +65,9 @@ fn get_set_cached<T: Clone>(
     // files, and that must not poison the cache for every later call.
     let value = value_func();
     let mut lock = cache.lock().expect("cache is poisoned");
-    lock.entry(key.into()).or_insert(value).clone()
+    lock.entry(key.as_os_str().to_owned())
+        .or_insert(value)
+        .clone()
 }
 
 fn query_document(query_string: &str) -> Result<QueryDocument, BoxError> {
